@@ -4,6 +4,7 @@ usage: tools/thorough_table.py <dir with thor-CXX.json>   (the 'what is deeper' 
 import json, re, sys, os
 src = sys.argv[1]
 design = open(os.path.join(os.path.dirname(__file__), "..", "DESIGN.md")).read()
+design = design[design.index("### 9.8 Thorough tier"):]
 deeper, complete = {}, {}
 for m in re.finditer(r"^\| (C\d\d) \| [^|]*\| [^|]*\| ([^|]*)\| ([^|]*)\| [^|]*\|$", design, re.M):
     deeper.setdefault(m.group(1), m.group(2).strip()); complete.setdefault(m.group(1), m.group(3).strip())
@@ -18,5 +19,5 @@ for i in range(1, 21):
         print("| %s | (not run) | | | | |" % cid); continue
     e = json.load(open(p)); c = e["coverage"]
     assert e["tier"] == "thorough" and not e["violations"], cid
-    prof = " (two build profiles)" if c.get("facts", {}).get("build_profiles") else ""
-    print("| %s | %s%s | %s | %s | %s | %d s |" % (cid, "{:,}".format(c["evaluations"]).replace(",", " "), prof, fmt(c["transitions"]), deeper.get(cid, ""), complete.get(cid, "yes" if c["exhaustive"] else "capped"), round(e["wall_s"])))
+    prof = " (two build profiles)" if "debug-assertions" in str(c.get("facts", {}).get("build_profiles", "")) else ""
+    print("| %s | %s%s | %s | %s | %s | %d s |" % (cid, "{:,}".format(c["evaluations"]).replace(",", " "), prof, fmt(c["transitions"]), deeper.get(cid, ""), ("yes" if c["exhaustive"] else complete.get(cid, "capped")), round(e["wall_s"])))
